@@ -411,7 +411,7 @@ func checkC06(c *Ctx) {
 	c.modelCheckConc(mixes, map[string]bool{"incr3": true, "cas2": true, "torn": true})
 	keep := 40
 	if !c.Quick() {
-		keep = 600
+		keep = 220
 	}
 	var scheds []concSched
 	for _, mix := range mixes {
